@@ -44,6 +44,9 @@ inductive ApiOut
   | resp (ids : List ProxySearch.ID) (docs : List Nat) (partialResp : Bool) (total : Nat)
 deriving DecidableEq, Repr
 
+/-- `int64(qpr.Total)` -/
+def toInt64 (t : Nat) : Int := if t % 18446744073709551616 ≥ 9223372036854775808 then (t % 18446744073709551616 : Nat) - 18446744073709551616 else (t % 18446744073709551616 : Nat)
+
 /-- `makeProtoDocs`: one entry per ID; `d, _ := docs.Next()` yields the zero document once the stream has ended -/
 def protoDocs : Nat → List Doc → List Nat
   | 0, _ => []
